@@ -954,6 +954,10 @@ func (c *Ctx) checkConfigSemantics(r *Report, ro *Roles, rule string) bool {
 			add(fmt.Sprintf("attribute %s = ${some-prop.for_it}, property set", a.name), func(m map[string]string) { m[k] = "${some-prop.for_it}"; m["some-prop.for_it"] = second })
 			add(fmt.Sprintf("attribute %s = ${someProp.forIt}, property set under its kebab-case spelling", a.name), func(m map[string]string) { m[k] = "${someProp.forIt}"; m["some-prop.for-it"] = second })
 			add(fmt.Sprintf("attribute %s = ${some-prop.for_it}, property not set", a.name), func(m map[string]string) { m[k] = "${some-prop.for_it}" })
+			// a placeholder naming a section (a key with children, no value of its own) names no property: creation must fail
+			add(fmt.Sprintf("attribute %s = ${some-prop}, which is a section holding for_it, not a property", a.name), func(m map[string]string) { m[k] = "${some-prop}"; m["some-prop.for_it"] = second })
+			add(fmt.Sprintf("attribute %s = ${x.inst}, the section of the plugin itself", a.name), func(m map[string]string) { m[k] = "${x.inst}" })
+			add(fmt.Sprintf("attribute %s = ${some-list}, which is an indexed list, not a property", a.name), func(m map[string]string) { m[k] = "${some-list}"; m["some-list[0]"] = second })
 			if len(av.ill) > 0 {
 				add(fmt.Sprintf("attribute %s = ${p}, property p set to the non-converting %q", a.name, av.ill[0]), func(m map[string]string) { m[k] = "${p}"; m["p"] = av.ill[0] })
 			}
@@ -1343,7 +1347,7 @@ func (c *Ctx) checkConfigSemantics(r *Report, ro *Roles, rule string) bool {
 		for _, pl := range plugins {
 			names = append(names, pl.kind+":"+pl.name)
 		}
-		r.OK(key, "%d registered plugin types %v: %d configurations created through toStorage + NewPlugin and compared field by field, element by element, with the statement's reference resolution (%d of them must fail and do): configured values incl. 64-bit boundaries and the strings {} [] <nil>, kebab/snake/inline spellings, declared defaults, missing required attributes, keys below an attribute name, non-converting values, ${} substitution present/absent/spelled/non-converting, elements left out / unknown / every registered type / inline / indexed lists of 1–3; %d Refresh evaluations (every logger type × appender type as a tagged logger and as root, inline loggers, %s) — nothing panics", len(plugins), names, len(cases), errs, nRefresh, "dangling references, unknown and cross-kind type names in three spellings, missing types, bad levels")
+		r.OK(key, "%d registered plugin types %v: %d configurations created through toStorage + NewPlugin and compared field by field, element by element, with the statement's reference resolution (%d of them must fail and do): configured values incl. 64-bit boundaries and the strings {} [] <nil>, kebab/snake/inline spellings, declared defaults, missing required attributes, keys below an attribute name, non-converting values, ${} substitution present/absent/spelled/non-converting/naming a section or a list instead of a property, elements left out / unknown / every registered type / inline / indexed lists of 1–3; %d Refresh evaluations (every logger type × appender type as a tagged logger and as root, inline loggers, %s) — nothing panics", len(plugins), names, len(cases), errs, nRefresh, "dangling references, unknown and cross-kind type names in three spellings, missing types, bad levels")
 	}
 	return okAll
 }
